@@ -13,5 +13,5 @@ NOT_APPLICABLE = [
     {"property_id": "C13", "reason": "strict/faithful config loading is a pure function of the configuration text and struct types (DESIGN.md section 6)"},
     {"property_id": "C14", "reason": "opaque-value redaction is a pure function of the value and the rendering path (DESIGN.md section 6)"},
 ]
-for _p in ["C15"]:
+for _p in []:
     NOT_APPLICABLE.append({"property_id": _p, "reason": PENDING})
